@@ -27,7 +27,23 @@ ASSUMPTIONS = [
 TOL = 1e-9
 
 
+def _rescaled(strategy):
+    """the same problems with rewards in other units (costs in nanoseconds, prizes in millionths)"""
+    def scale(t):
+        spec, k = t
+        for s_ in range(spec["n"]):
+            for a_, outs in spec["trans"][s_]:
+                for o_ in outs:
+                    o_[2] = o_[2] * k
+        return spec
+    return st.tuples(strategy, st.sampled_from([1e12, 1e12, 1e9, 1e-6, 2.0 ** 40])).map(scale)
+
+
 def _flav(tier):
+    return st.one_of(_flav0(tier), _flav0(tier), _flav0(tier), _rescaled(_flav0(tier)))
+
+
+def _flav0(tier):
     big = tier == "thorough"
     return st.one_of(
         mdp_specs("discounted", max_states=6 if big else 5, p0_zero_entries=True),
@@ -327,7 +343,8 @@ def prop_vi_diff(case, ctx):
             ctx.check(v1 == v2, "C01.diff.values_equal_at_cut_states", lambda: f"{i}: {v1} vs {v2}")
             continue
         if gamma < 1.0:
-            b = 2 * res / (1 - gamma) + 1e-9
+            # (+ the floating-point floor: rounding of values of size |v| is amplified by the horizon 1/(1-gamma))
+            b = 2 * res / (1 - gamma) + 1e-9 + 1e-14 * max(abs(v1), abs(v2)) / (1 - gamma)
             ctx.check(abs(v1 - v2) <= b, "C01.diff.values_agree", lambda: f"state {i}: vec {v1} dict {v2} bound {b}")
         else:
             # both are upper bounds converging monotonically; compare only loosely through their policies' horizon
